@@ -104,11 +104,19 @@ class PeriodicKernel(Kernel):
             self.register_prior(
                 "period_length_prior",
                 period_length_prior,
-                lambda m: m.period_length,
-                lambda m, v: m._set_period_length(v),
+                self._period_length_param,
+                self._period_length_closure,
             )
 
         self.register_constraint("raw_period_length", period_length_constraint)
+
+    def _period_length_param(self, m):
+        # Used by the period_length_prior (a method rather than a lambda: the module stays picklable)
+        return m.period_length
+
+    def _period_length_closure(self, m, v):
+        # Used by the period_length_prior
+        return m._set_period_length(v)
 
     @property
     def period_length(self):
